@@ -77,6 +77,15 @@ fn select(text: &str, kind: u8, p: u16, q: u16) -> ((u32, u32), &'static str) {
 impl Property for C07 {
     type Case = Case;
     type Local = ();
+    fn thorough_family(&self, _c: &Self::Case, f: &Fail) -> Option<String> {
+        // shapes of whole-document formatter defects (C05 families) seen through a range; the range-specific
+        // clauses (range malformed, not covering the selection, erroneous document formatted) are never mapped
+        if f.sig.starts_with("tokens:") || f.sig.starts_with("C:") || f.sig.starts_with("A:") {
+            Some("family:formatter-output-defect-in-range-unclassified-shape".into())
+        } else {
+            None
+        }
+    }
     fn id(&self) -> &'static str {
         "C07"
     }
